@@ -447,7 +447,7 @@ func NewServer(cfgs ...*Config) *Server {
 		log.Printf("[WS] Config validation warning: %v", err)
 	}
 
-	hub := NewHub()
+	hub := NewHubWithConfig(cfg)
 	go hub.Run()
 
 	return &Server{
